@@ -42,7 +42,7 @@ func init() {
 			return 96
 		},
 		Run:     runC10,
-		Require: []string{"runs", "ops_before_close", "ops_after_close_failed", "close_raced_with_ops", "method_pairs_overlapped", "fs_mem", "fs_os", "fs_osmmap", "bg_worker_runs", "forced_recoveries", "shared_iterator_calls", "runs_started_by_recovery_with_bg_worker", "puts_of_256KiB_values"},
+		Require: []string{"runs", "ops_before_close", "ops_after_close_failed", "close_raced_with_ops", "method_pairs_overlapped", "fs_mem", "fs_os", "fs_osmmap", "bg_worker_runs", "forced_recoveries", "shared_iterator_calls", "runs_started_by_recovery_with_bg_worker", "puts_of_1MiB_values"},
 		PostChild: func(p *core.Parent, shard int, logPath string) {
 			seen := map[string]int{}
 			first := map[string]core.RaceReport{}
@@ -302,11 +302,19 @@ func runC10(c *core.Ctx) {
 				}
 				progress[w].Add(1)
 				key := []byte(fmt.Sprintf("w%d-k%d", w, r.Intn(12)))
-				// on the memory-mapped file system one key per run carries a value of 256 KiB (copying it out takes a while);
-				// it is written twice and otherwise read
-				bigKey := fsk == core.FSOSMMap && w == 0 && r.Intn(6) == 0 && (myBig < 2 || r.Intn(3) > 0)
+				// on the memory-mapped file system one key per run carries a value of 1 MiB (copying it out takes a while);
+				// it is written once and otherwise read
+				bigKey := fsk == core.FSOSMMap && w == 0 && r.Intn(6) == 0 && (myBig < 1 || r.Intn(3) > 0)
 				if bigKey {
 					key = []byte(fmt.Sprintf("w%d-big", w))
+				}
+				if fsk == core.FSOSMMap && w != 0 && r.Intn(40) == 0 {
+					// every worker reads the one large value now and then (copying 1 MiB out of the mapping takes a while)
+					t0 := clock.Tick()
+					_, gerr := db.Get([]byte("w0-big"))
+					local = append(local, ival{"Get", t0, clock.Tick()})
+					_ = gerr
+					continue
 				}
 				var m string
 				var err error
@@ -318,9 +326,9 @@ func runC10(c *core.Ctx) {
 					isWrite = true
 					v := fmt.Sprintf("v-%d-%d-%s", w, i, strings.Repeat("x", r.Intn(80)))
 					if bigKey {
-						if myBig < 2 {
+						if myBig < 1 {
 							myBig++
-							v = fmt.Sprintf("v-%d-%d-%s", w, i, strings.Repeat("B", 256<<10))
+							v = fmt.Sprintf("v-%d-%d-%s", w, i, strings.Repeat("B", 1<<20))
 							bigPuts.Add(1)
 						} else {
 							m = "Get"
@@ -517,7 +525,7 @@ func runC10(c *core.Ctx) {
 	c.Stat("ops_after_close_failed", afterCloseFailed.Load())
 	c.Stat("shared_iterator_calls", sharedCalls.Load())
 	c.Stat("bg_maintenance_in_flight_when_close_was_called", bgInFlight.Load())
-	c.Stat("puts_of_256KiB_values", bigPuts.Load())
+	c.Stat("puts_of_1MiB_values", bigPuts.Load())
 	if v := violated.Load(); v != nil {
 		p := v.([2]string)
 		c.Violation(p[0], p[1]+fmt.Sprintf(" (fs %s)", fsk), map[string]interface{}{"hash_seed": seed, "fs": fsk, "config": cfg})
